@@ -66,6 +66,10 @@ pub const DIRECTED: &[&str] = &[
     "\0",
     "package \u{2028} p \u{2029}; interface\u{85}I{}",
     "package p; interface I { void f() =\u{3000}4294967296 ; }",
+    "\u{feff}package p; interface I { const String S = \"€\"; }",
+    "\u{feff}x",
+    "\u{feff}\u{feff}package p; /** é */ enum E { A }",
+    "\u{feff}/** 漢 */ package p; parcelable P { int x; }",
 ];
 
 pub const SIZE_SHAPES: usize = 10;
@@ -163,13 +167,20 @@ pub fn make_case(seed: u64, tier: Tier, mode: &str, stage: &str, idx: u64) -> Op
         };
         (0..n).map(|_| (rng.pick_str(&ids).to_string(), f(rng))).collect()
     };
+    // a byte order mark in front of the first file once in a while (editors write it; the library must cope)
+    let bom = |rng: &mut Rng, mut v: Vec<(String, String)>| -> Vec<(String, String)> {
+        if rng.chance(1, 12) {
+            if let Some(f) = v.first_mut() {
+                f.1.insert(0, '\u{feff}');
+            }
+        }
+        v
+    };
     match stage {
         "directed" => Some(("directed".into(), vec![("a".into(), DIRECTED.get(idx as usize)?.to_string())])),
         "char_soup" => {
             let extra = rng.chance(1, 4);
-            Some((
-                "char_soup".into(),
-                multi(&mut rng, &mut |r| {
+            let v = multi(&mut rng, &mut |r| {
                     let mut s = mutate::char_soup(r, 200);
                     if extra {
                         let at = r.below(s.chars().count() + 1);
@@ -177,20 +188,23 @@ pub fn make_case(seed: u64, tier: Tier, mode: &str, stage: &str, idx: u64) -> Op
                         s.insert_str(b, r.pick_str(mutate::SOUP_EXTRA));
                     }
                     s
-                }),
-            ))
+                });
+            Some(("char_soup".into(), bom(&mut rng, v)))
         }
-        "token_soup" => Some(("token_soup".into(), multi(&mut rng, &mut |r| mutate::token_soup(r, 60)))),
-        "mutated" => Some((
-            "mutated".into(),
-            multi(&mut rng, &mut |r| {
+        "token_soup" => {
+            let v = multi(&mut rng, &mut |r| mutate::token_soup(r, 60));
+            Some(("token_soup".into(), bom(&mut rng, v)))
+        }
+        "mutated" => {
+            let v = multi(&mut rng, &mut |r| {
                 let (_, mut t) = syncases::mutation_case(r);
                 if r.chance(1, 3) {
                     t = mutate::char_splice(r, &t);
                 }
                 t
-            }),
-        )),
+            });
+            Some(("mutated".into(), bom(&mut rng, v)))
+        }
         "large_docs" => {
             // generated documents with many members in wild layouts (multi-byte comments and doc comments everywhere), 4-30 KiB
             let cfg = GenCfg { max_members: 30 + rng.below(if mode == "native" { 120 } else { 30 }), max_args: 4, max_type_depth: 3, ann_num: 1, ann_den: 3, ..GenCfg::default() };
@@ -206,7 +220,7 @@ pub fn make_case(seed: u64, tier: Tier, mode: &str, stage: &str, idx: u64) -> Op
             if rng.chance(1, 3) {
                 text = mutate::char_splice(&mut rng, &text);
             }
-            Some(("large_docs".into(), vec![("a".to_string(), text)]))
+            Some(("large_docs".into(), bom(&mut rng, vec![("a".to_string(), text)])))
         }
         "inject" => inject_case(idx, seed).map(|(l, t)| (l, vec![("a".to_string(), t)])),
         "size" => {
